@@ -590,6 +590,48 @@ def A_key_depth(factory):
   return emit
 
 
+def A_process_scan(tree):
+  """Every use, anywhere in the module, of something whose value depends on the interpreter process or the moment
+  rather than on the arguments: hash(), id(), the time / datetime / uuid / secrets modules, os.environ / getenv / getpid /
+  urandom, the stdlib `random` module, unseeded numpy.random.  `process_dependent_uses` must stay 0."""
+  hits = []
+  std_random = any(isinstance(n, ast.Import) and any(a.name == 'random' and a.asname is None for a in n.names) for n in ast.walk(tree))
+  # an identity __hash__ (`return id(self)`, used by jit to key its cache on a Model object) does not reach any value
+  allowed = {id(c) for f in ast.walk(tree) if isinstance(f, ast.FunctionDef) and f.name == '__hash__' and len(f.body) == 1
+             and _src(f.body[0]) == 'return id(self)' for c in ast.walk(f)}
+  for n in ast.walk(tree):
+    if isinstance(n, ast.Call) and isinstance(n.func, ast.Name) and n.func.id in ('hash', 'id', 'input', 'globals', 'vars') \
+        and id(n) not in allowed:
+      hits.append(_src(n, 50))
+    if isinstance(n, (ast.Import, ast.ImportFrom)):
+      mods = [a.name for a in n.names] if isinstance(n, ast.Import) else [n.module or '']
+      for m in mods:
+        if m.split('.')[0] in ('time', 'datetime', 'uuid', 'secrets'):
+          hits.append('import ' + m)
+    if isinstance(n, ast.Attribute):
+      try:
+        d = dotted(n)
+      except Unsupported:
+        continue
+      parts = d.split('.')
+      if parts[0] == 'os' and len(parts) > 1 and parts[1] in ('environ', 'getenv', 'getpid', 'urandom', 'times'):
+        hits.append(d)
+      if std_random and parts[0] == 'random' and len(parts) == 2:
+        hits.append(d)
+    if isinstance(n, ast.Call):
+      try:
+        d = dotted(n.func)
+      except Unsupported:
+        continue
+      parts = d.split('.')
+      if len(parts) >= 3 and parts[0] in ('np', 'numpy') and parts[1] == 'random':
+        seeded = parts[2] in ('RandomState', 'default_rng', 'SeedSequence', 'Generator') and (n.args or n.keywords)
+        if not seeded:
+          hits.append(_src(n, 50))
+  return ('(* uses of process- or time-dependent values in this module: ' + ('; '.join(hits) if hits else 'none') + ' *)\n'
+          f'Definition process_dependent_uses : nat := {len(hits)}.')
+
+
 PRE = 'From FV Require Import Common.Store.\n'
 
 
@@ -598,7 +640,11 @@ QUANTIZERS = ('uniform_stochastic_quantizer', 'rotated_uniform_stochastic_quanti
 
 
 def _mod(src, *factories):
-  return {'src': src, 'preamble': PRE, 'items': [A_effects(f) for f in factories]}
+  return {'src': src, 'preamble': PRE, 'items': [A_effects(f) for f in factories] + [A_process_scan]}
+
+
+def _scan(src):
+  return {'src': src, 'preamble': '', 'items': [A_process_scan]}
 
 
 MODULES = {
@@ -610,9 +656,14 @@ MODULES = {
     'Gen_c10_hyp_cluster': _mod(ALG + 'hyp_cluster.py', 'hyp_cluster'),
     'Gen_c10_apfl': {'src': ALG + 'apfl.py', 'preamble': PRE,
                      'items': [A_effects('adaptive_personalized_federated_learning'),
-                               A_effects('eval_adaptive_personalized_federated_learning', 'apfl_eval', fn='__fn')]},
+                               A_effects('eval_adaptive_personalized_federated_learning', 'apfl_eval', fn='__fn'), A_process_scan]},
     'Gen_c10_compression': {
         'src': 'fedjax/aggregators/compression.py', 'preamble': PRE,
-        'items': [A_effects(f) for f in QUANTIZERS] + [A_key_depth(f) for f in QUANTIZERS]},
-    'Gen_c10_optimizers': {'src': 'fedjax/core/optimizers.py', 'preamble': '', 'items': [A_optax_apply_donates]},
+        'items': [A_effects(f) for f in QUANTIZERS] + [A_key_depth(f) for f in QUANTIZERS] + [A_process_scan]},
+    'Gen_c10_optimizers': {'src': 'fedjax/core/optimizers.py', 'preamble': '', 'items': [A_optax_apply_donates, A_process_scan]},
+    'Gen_c10_scan_for_each_client': _scan('fedjax/core/for_each_client.py'),
+    'Gen_c10_scan_tree_util': _scan('fedjax/core/tree_util.py'),
+    'Gen_c10_scan_client_datasets': _scan('fedjax/core/client_datasets.py'),
+    'Gen_c10_scan_models': _scan('fedjax/core/models.py'),
+    'Gen_c10_scan_walsh_hadamard': _scan('fedjax/aggregators/walsh_hadamard.py'),
 }
